@@ -543,7 +543,8 @@ def o_axis(case, T):
 def s_bin(draw):
     fam = draw(st.sampled_from(["exact", "general"]))
     if fam == "exact":
-        sz = draw(st.sampled_from([1.0, 0.25, 10.0, 100.0, 4096.0]))
+        # incl. sizes whose reciprocal rounds down (49, 103, ...): x/sz is exact on bin edges, x*(1/sz) is not
+        sz = draw(st.sampled_from([1.0, 0.25, 10.0, 100.0, 4096.0, 3.0, 7.0, 49.0, 98.0, 103.0, 107.0, 161.0, 187.0, 12.5]))
         origin = draw(st.integers(-4000, 4000).map(lambda k: k / 4))
     else:
         sz = draw(st.one_of(st.sampled_from([0.1, 7.3, 1e-3, 96000.0]), st.floats(1e-3, 1e6)))
